@@ -136,6 +136,10 @@ func ruleEMPTY4(c *Ctx) []Ob {
 					return false, "a nil constant"
 				}
 				continue
+			case *ssa.Parameter:
+				// the original itself handed back (a nil kept nil): nil only where the original is
+				// (that it is not a copy is ALIAS3's matter)
+				continue
 			default:
 				return false, fmt.Sprintf("%T not followed", og)
 			}
@@ -3811,6 +3815,24 @@ func ruleCOD8(c *Ctx) []Ob {
 				}
 			}
 		})
+		// or: g hands the Elem() of a type to itself (the loop written as a recursion)
+		allCalls(g, func(ci ssa.CallInstruction) {
+			if h := staticCallee(ci); h == nil || c.declared(h) != g {
+				return
+			}
+			for _, a := range ci.Common().Args {
+				for _, og := range origins(a) {
+					el, ok := og.(*ssa.Call)
+					if !ok || !isTypeElem(el) {
+						continue
+					}
+					// of its own type parameter, in a helper that answers a type
+					if p, isP := el.Call.Value.(*ssa.Parameter); isP && p.Parent() == g && g.Signature.Results().Len() == 1 && namedIs(g.Signature.Results().At(0).Type(), "reflect", "Type") {
+						found = true
+					}
+				}
+			}
+		})
 		return found
 	}
 	kStruct, okK := c.reflectKind("Struct")
@@ -3914,4 +3936,165 @@ func ruleCOD8(c *Ctx) []Ob {
 		o.add(INFO, "rename walk", "-", "no function reached from Convert compares a reflect.Type's kind with reflect.Struct")
 	}
 	return o.list
+}
+
+// ---------------------------------------------------------------- sign prover (CNT1, second obligation)
+
+// sameValueExpr: a and b denote the same value - the same access path, or two calls of the same
+// library getter (a function without stores or calls that returns a field of its receiver) on
+// the same receiver.
+func (c *Ctx) sameValueExpr(a, b ssa.Value, depth int) bool {
+	if samePath(a, b, 0) {
+		return true
+	}
+	if depth > 3 {
+		return false
+	}
+	ca, ok1 := a.(*ssa.Call)
+	cb, ok2 := b.(*ssa.Call)
+	if !ok1 || !ok2 {
+		return false
+	}
+	ga, gb := staticCallee(ca), staticCallee(cb)
+	if ga == nil || gb == nil || c.declared(ga) != c.declared(gb) || !c.isPureGetter(c.declared(ga)) {
+		return false
+	}
+	if len(ca.Call.Args) != len(cb.Call.Args) {
+		return false
+	}
+	for i := range ca.Call.Args {
+		if !c.sameValueExpr(ca.Call.Args[i], cb.Call.Args[i], depth+1) {
+			return false
+		}
+	}
+	return true
+}
+
+// isPureGetter: a library function whose body stores nothing and calls nothing.
+func (c *Ctx) isPureGetter(g *ssa.Function) bool {
+	if g == nil || !c.IsLib(g) || len(g.Blocks) == 0 {
+		return false
+	}
+	for _, b := range g.Blocks {
+		for _, in := range b.Instrs {
+			switch in.(type) {
+			case *ssa.Store, *ssa.MapUpdate, *ssa.Call, *ssa.Go, *ssa.Defer, *ssa.Send:
+				return false
+			}
+		}
+	}
+	return true
+}
+
+type signCond struct {
+	cond   ssa.Value
+	branch bool
+}
+
+// condGivesNonNeg: the condition, taken on the given branch, tells that v >= 0.
+func (c *Ctx) condGivesNonNeg(cond ssa.Value, branch bool, v ssa.Value) bool {
+	bo, ok := cond.(*ssa.BinOp)
+	if !ok {
+		return false
+	}
+	op := bo.Op
+	var k int64
+	var okk bool
+	switch {
+	case c.sameValueExpr(bo.X, v, 0):
+		k, okk = constInt(bo.Y)
+	case c.sameValueExpr(bo.Y, v, 0):
+		k, okk = constInt(bo.X)
+		// k op v  ==  v op' k
+		switch op {
+		case token.LSS:
+			op = token.GTR
+		case token.LEQ:
+			op = token.GEQ
+		case token.GTR:
+			op = token.LSS
+		case token.GEQ:
+			op = token.LEQ
+		}
+	default:
+		return false
+	}
+	if !okk {
+		return false
+	}
+	if !branch {
+		switch op {
+		case token.LSS:
+			op = token.GEQ
+		case token.LEQ:
+			op = token.GTR
+		case token.GTR:
+			op = token.LEQ
+		case token.GEQ:
+			op = token.LSS
+		case token.EQL:
+			op = token.NEQ
+		case token.NEQ:
+			op = token.EQL
+		default:
+			return false
+		}
+	}
+	switch op {
+	case token.GEQ, token.EQL:
+		return k >= 0
+	case token.GTR:
+		return k >= -1
+	}
+	return false
+}
+
+// nonNegAt: the integer v is known to be at least zero when control is in block at (extra: the
+// conditions of the edge just taken).
+func (c *Ctx) nonNegAt(fn *ssa.Function, v ssa.Value, at *ssa.BasicBlock, extra []signCond, depth int) bool {
+	if depth > 8 || v == nil {
+		return false
+	}
+	switch x := v.(type) {
+	case *ssa.Const:
+		k, ok := constInt(x)
+		return ok && k >= 0
+	case *ssa.Call:
+		if b, ok := x.Call.Value.(*ssa.Builtin); ok && (b.Name() == "len" || b.Name() == "cap") {
+			return true
+		}
+	case *ssa.Convert:
+		// a signed integer found non-negative stays so when widened (an unsigned one may wrap: not taken)
+		if c.nonNegAt(fn, x.X, at, extra, depth+1) {
+			if st, ok := x.X.Type().Underlying().(*types.Basic); ok && st.Info()&types.IsInteger != 0 && st.Info()&types.IsUnsigned == 0 {
+				return true
+			}
+		}
+	}
+	for _, e := range extra {
+		if c.condGivesNonNeg(e.cond, e.branch, v) {
+			return true
+		}
+	}
+	for _, dc := range dominatingConds(fn, at) {
+		if c.condGivesNonNeg(dc.cond, dc.branch, v) {
+			return true
+		}
+	}
+	if phi, ok := v.(*ssa.Phi); ok {
+		for i, e := range phi.Edges {
+			p := phi.Block().Preds[i]
+			var ex []signCond
+			if len(p.Instrs) > 0 {
+				if iff, ok := p.Instrs[len(p.Instrs)-1].(*ssa.If); ok && p.Succs[0] != p.Succs[1] {
+					ex = append(ex, signCond{iff.Cond, p.Succs[0] == phi.Block()})
+				}
+			}
+			if !c.nonNegAt(fn, e, p, ex, depth+1) {
+				return false
+			}
+		}
+		return len(phi.Edges) > 0
+	}
+	return false
 }
